@@ -48,7 +48,7 @@ def split_by_property(tot, prop):
 DEADLINE = {"quick": 240, "thorough": 1500}
 
 
-def hist_check(prop, tier, configs, depth, rule, assumptions, level="model_checking", long_cfgs=None, long_writes=(), maxday=2, deep=None, extra_groups=(), lag=None):
+def hist_check(prop, tier, configs, depth, rule, assumptions, level="model_checking", long_cfgs=None, long_writes=(), maxday=2, deep=None, extra_groups=(), lag=None, reconf=None):
     """shared driver of C05 C06 C07 C09: exhaustive history enumeration (+ optional straight-line crossings).
     extra_groups: further (configs, depth) pairs. Every enumeration runs under a real-time deadline; a run that is cut reports
     exhaustive:false and the depth it completed on every configuration (iterative deepening), and still exits 0."""
@@ -69,6 +69,11 @@ def hist_check(prop, tier, configs, depth, rule, assumptions, level="model_check
         # histories that also contain LAGGING records (message created yesterday, sent now: an asynchronous backlog across midnight)
         a = shard_args("hist", lag[0], vlib.NCPU, ["--depth", lag[1], "--maxday", 1, "--reduced", 1, "--lag", 1] + dl)
         args += a; kinds += [("lag", lag[1])] * len(a)
+    if reconf:
+        # histories in which a restart may also SWITCH an option (compression, rotation on startup): an edited configuration between
+        # two runs of the application; the directory then mixes compressed and plain rotated files
+        a = shard_args("hist", reconf[0], vlib.NCPU, ["--depth", reconf[1], "--maxday", 1, "--reduced", 1, "--reconf", 1] + dl)
+        args += a; kinds += [("reconf", reconf[1])] * len(a)
     for w in long_writes:
         for c in (long_cfgs or []):
             args.append(["--mode", "long", "--configs", c, "--writes", w, "--only-prop", prop]); kinds.append(("long", w))
@@ -87,7 +92,8 @@ def hist_check(prop, tier, configs, depth, rule, assumptions, level="model_check
                    " over {W x up to 8 record kinds, D1..D%d, R}" % maxday + \
                    ("; %s consecutive rotating writes x 3 variants on %d configurations" % ("/".join(map(str, long_writes)), len(long_cfgs or [])) if long_writes else "") + \
                    ("; histories <= %d ops over the reduced alphabet {W1, W(L), D1, R} on %d configurations%s" % (deep[1], len(deep[0]), "" if done.get("deep", deep[1]) == deep[1] else " (deadline: completed <= %d)" % done.get("deep")) if deep else "") + \
-                   ("; histories <= %d ops over {W1, W(L), lagging W1, lagging W(L), D1, R} on %d configurations" % (lag[1], len(lag[0])) if lag else "")
+                   ("; histories <= %d ops over {W1, W(L), lagging W1, lagging W(L), D1, R} on %d configurations" % (lag[1], len(lag[0])) if lag else "") + \
+                   ("; histories <= %d ops over {W1, W(L), D1, R, Qc = restart with compression switched, Qs = restart with rotation-on-startup switched} on %d configurations%s" % (reconf[1], len(reconf[0]), "" if done.get("reconf", reconf[1]) == reconf[1] else " (deadline: completed <= %d)" % done.get("reconf")) if reconf else "")
     other = split_by_property(tot, prop) + tot["counters"].get("violations_of_other_properties_not_recorded", 0)
     tot["distinct_outcomes"] = tot["states"]
     return seqxrun.finish(prop, tier, level, tot, t, rule, assumptions, fails,
@@ -112,5 +118,6 @@ def replay(prop, path):
 COMMON_ASSUMPTIONS = [
     "TZ=UTC, LC_ALL=C.UTF-8; wall clock and file modification times are virtual (interposed gettimeofday/clock_gettime/statx), advanced only by the explorer",
     "messages are created and sent at the same virtual instant (synchronous logger)",
+    "log file names explored: app.log, app (no suffix), a+b.log (regex metacharacter), .app.log (hidden); rotated files of all of them must be found again by the sink",
     "the scratch directory is a tmpfs; the interposer sees every open/write/rename/unlink Qt performs (vacuity guard: rotations are counted)",
 ]
